@@ -260,6 +260,40 @@ def scan_table_snapshots(repo, tier, seed):
     return [ob]
 
 
+def scan_worker_configuration_fields(repo, tier, seed):
+    """C18 (every worker that ever runs a task - initial, respawned, added by a resize - first ran the configured initializer with its initargs, in the configured
+    environment): the executor's start-up configuration (_initializer, _initargs, _env) is assigned by its constructor only; every later spawn reads the
+    same values (the spawn loop's contract ships self._initializer / self._initargs / self._env as they are at that time)."""
+    fields = {"_initializer", "_initargs", "_env"}
+    bad, ok_sites = [], []
+    for rel in ("loky/process_executor.py", "loky/reusable_executor.py"):
+        tree = _scan(repo, rel)
+
+        def walk(node, fn):
+            for ch in _ast.iter_child_nodes(node):
+                f2 = ch.name if isinstance(ch, (_ast.FunctionDef, _ast.AsyncFunctionDef)) else fn
+                targets = []
+                if isinstance(ch, _ast.Assign):
+                    targets = ch.targets
+                elif isinstance(ch, (_ast.AugAssign, _ast.AnnAssign)):
+                    targets = [ch.target]
+                elif isinstance(ch, _ast.Delete):
+                    targets = ch.targets
+                flat = []
+                for t in targets:
+                    flat += list(t.elts) if isinstance(t, (_ast.Tuple, _ast.List)) else [t]
+                for t in flat:
+                    if isinstance(t, _ast.Attribute) and t.attr in fields:
+                        (ok_sites if fn == "__init__" else bad).append(f"{rel}:{ch.lineno}: {_ast.unparse(t)} in {fn}")
+                if isinstance(ch, _ast.Call) and _ast.unparse(ch.func) == "setattr" and len(ch.args) >= 2 and \
+                        isinstance(ch.args[1], _ast.Constant) and ch.args[1].value in fields:
+                    bad.append(f"{rel}:{ch.lineno}: setattr(.., {ch.args[1].value!r}) in {fn}")
+                walk(ch, f2)
+        walk(tree, "<module>")
+    return [_ob("loky.process_executor:<module>:structural/worker-start-up-configuration-assigned-by-the-constructor-only", not bad and len(ok_sites) >= 3,
+                f"constructor sites: {ok_sites}; other writes: {bad}")]
+
+
 def scan_popen_interface(repo, tier, seed):
     """C06 / C02 (with and without psutil): multiprocessing's BaseProcess forwards poll / wait / terminate / kill to the Popen object of the start method;
     the external contracts Process.join / .kill / .terminate / .exitcode assume loky's Popen offers them. kill() is what the tree-kill falls back to when
@@ -630,7 +664,7 @@ PROPS["C16"] = dict(
            "(loads, dumps(obj)) without keep_wrapper and to (_reconstruct_wrapper, dumps(obj), True) with it; _reconstruct_wrapper re-wraps the unpickled object "
            "with the same rule; attribute reads and calls are forwarded unchanged (one call, same arguments, exceptions propagate); wrapping a class yields a "
            "class named like it whose instances hold an instance built from the constructor arguments; inductive lemma for repeated round trips.",
-    not_covered="cloudpickle itself (T-deps: loads(dumps(o)) behaves like o); _wrap_objects_when_needed (the automatic wrapping heuristics) is not under contract.",
+    not_covered="cloudpickle itself (T-deps: loads(dumps(o)) behaves like o); _wrap_objects_when_needed (the automatic wrapping heuristics) is not under contract. Observed and outside what a contract on these functions can state: a *recursive* function decorated with wrap_non_picklable_objects cannot be pickled (PicklingError: excessively deep recursion - the nested dumps of __reduce__ starts a fresh memo and meets the wrapper again).",
     assumptions=["A-user"],
     abstractions=COMMON_ABS + ["objects are opaque ids with uninterpreted callable / attribute / application functions"],
     extra=[lemma_wrapper_roundtrips],
@@ -704,7 +738,7 @@ PROPS["C18"] = dict(
                 "(calls each chained initializer with its own arguments: a zip over a heap list, not under contract) and the viztracer introspection (third party).",
     assumptions=["A-posix", "A-fds", "A-user", "A-finalize", "A-tracker-stable", "A-spawn"],
     abstractions=EXEC_ABS,
-    extra=[scan_worker_spawn_sites, scan_process_classes_take_env],
+    extra=[scan_worker_spawn_sites, scan_process_classes_take_env, scan_worker_configuration_fields],
 )
 PROPS["C20"] = dict(
     proved="ownership accounting over a ghost set of open descriptors: fork_exec, Popen._launch and ResourceTracker.ensure_running close or hand to an owner every "
